@@ -180,7 +180,11 @@ theorem loop_opcode_bounded (ped : Bool) (op : Nat) (vs vs' : List Int) (g g' : 
   rw [if_neg hc7] at h
   by_cases hc8 : op = 0x80
   · rw [if_pos hc8] at h
-    exact counted_step ped vs vs vs' g g' _ hw (Nat.le_refl _) (Option.some.inj h)
+    split at h
+    · have h := Option.some.inj h
+      simp at h; obtain ⟨_, h2⟩ := h; subst h2
+      exact ⟨⟨by simp, hw.2⟩, by (simp [work] <;> omega), rfl, rfl, rfl, rfl⟩
+    · exact counted_step ped vs vs vs' g g' _ hw (Nat.le_refl _) (Option.some.inj h)
   -- FLIPRGON / FLIPRGOFF
   rw [if_neg hc8] at h
   by_cases hc9 : op = 0x81 ∨ op = 0x82
